@@ -367,15 +367,12 @@ Section PSound.
   (* ================================================================ the two Transpose fold passes *)
   (* Their value-level soundness is TransposeRegion.v / TransposeAddForestSound.v.  The declared dims after a fold are the
      rewired refresh of TransposeRefresh.v; they are TRUE (refresh_members_true below) given that the fold changes no value
-     outside the members it moves and that those members are elementwise: [frame_F] is proved
-     (TransposeAddForestSound.addforest_step_frame), [frame_T] is what TransposeRegion.v / TransposePairPass.v establish
-     internally for the pair pass but do not export yet. *)
+     outside the members it moves and that those members are elementwise: [frame_F]
+     (TransposeAddForestSound.addforest_step_frame) and [frame_T] (TransposeRegion.transpose_pair_action_frame), both proved. *)
   Definition frame_spec (ns' : list node) (changed : list name) (e ef : env V) : Prop :=
     (exists ef', evalg ns' e = Some ef' /\ forall x w, ef' x = Some w -> exists v, ef x = Some v /\ (In x changed \/ teq v w)) /\
     (forall n y, In n ns' -> In y (n_outs n) -> In y changed -> is_elem n = true /\ n_caps n = []) /\
     (forall y, In y changed -> In y (defs ns')).
-  Hypothesis frame_T : forall g act e ef, padm g e -> evalg (o_nodes g) e = Some ef -> decide_step (projT g) = Some act ->
-    proved_kind_all (projT g) act = true -> frame_spec (tg_nodes (apply_taction (projT g) act)) (refreshed_outs true act) e ef.
   Lemma o_refresh_rw_frame g n : o_nodes (o_refresh_rw g n) = o_nodes g /\ o_outputs (o_refresh_rw g n) = o_outputs g /\
     o_scalar (o_refresh_rw g n) = o_scalar g /\ o_crank (o_refresh_rw g n) = o_crank g /\ o_const (o_refresh_rw g n) = o_const g /\
     o_bool (o_refresh_rw g n) = o_bool g /\ o_fc (o_refresh_rw g n) = o_fc g.
@@ -556,6 +553,14 @@ Section PSound.
     - change (rung (o_graph (o_refresh_members (map out_of (f_es f)) g0)) e = Some o').
       assert (Hgr : o_graph (o_refresh_members (map out_of (f_es f)) g0) = tg_graph gx) by (unfold o_graph, tg_graph; rewrite F1, F2; reflexivity).
       rewrite Hgr. exact Hrun'.
+  Qed.
+
+  Lemma frame_T g act e ef : padm g e -> evalg (o_nodes g) e = Some ef -> decide_step (projT g) = Some act ->
+    proved_kind_all (projT g) act = true -> frame_spec (tg_nodes (apply_taction (projT g) act)) (refreshed_outs true act) e ef.
+  Proof.
+    intros Hadm Hev Hd Hk.
+    pose proof (transpose_pair_action_frame A sem sem_proper Htr F Hpw Fcl Hcl Hcl_type Hacc (projT g) act e ef (padm_tadm g e Hadm) Hev Hd Hk) as H.
+    replace (refreshed_outs true act) with (changed_of act) by (destruct act; reflexivity). exact H.
   Qed.
 
   Lemma step_ok_T k g g' e0 e : kinds_along (S k) (projT g) = true -> padm g e -> pext g e0 e -> o_step_T true g = Some g' ->
@@ -1407,12 +1412,6 @@ Definition opt_world (A : Type) (sem : string -> list nat -> list (tensor A) -> 
      exists c n, vs = [c] /\ o = [n] /\ shape n = shape c /\ forall b, denoteB c = Some b -> denoteB n = Some (negb b)) /\
   (forall op ats x r t rest o, op_type op = "Dropout"%string -> sem op ats (x :: r :: t :: rest) = Some o -> shape t = []).
 
-(* the folds of the two Transpose passes change no value outside the members they move, and those members are elementwise
-   nodes of the rewritten graph (what the simulations of TransposeRegion.v / TransposeAddForestSound.v establish
-   internally); from it the declared dims the rewired refresh leaves behind are PROVED true (refresh_fold_true) *)
-Definition frame_ok_T (A : Type) sem denoteZ denoteB : Prop :=
-  forall g act e ef, padm A sem denoteZ denoteB g e -> eval (tensor A) sem (o_nodes g) e = Some ef -> decide_step (projT g) = Some act ->
-    proved_kind_all (projT g) act = true -> frame_spec A sem (tg_nodes (apply_taction (projT g) act)) (refreshed_outs true act) e ef.
 (* every pass of the table that is not a verified model refines and keeps the graph admissible *)
 Definition unmodelled_ok (A : Type) sem denoteZ denoteB (U : string -> ograph -> ograph) : Prop :=
   Forall (fun r => pass_ok_on (tensor A) teq sem ograph o_graph (padm A sem denoteZ denoteB) (pext A denoteZ denoteB) (fun _ => True) (U r)) UNMODELLED_RUNNERS.
@@ -1423,26 +1422,24 @@ Definition kinds_ok_top fuel opset U : ograph -> Prop := guards_along ograph (im
 Definition kinds_ok_body fuel opset U : ograph -> Prop := guards_along ograph (impl_fn fuel opset U) (guard_fn fuel) body_runners.
 
 Theorem optimize_graph_sound (A : Type) sem F Fcl reduce denoteZ mkZ denoteB mkB : opt_world A sem F Fcl reduce denoteZ mkZ denoteB mkB ->
-  frame_ok_T A sem denoteZ denoteB ->
   forall fuel opset U, unmodelled_ok A sem denoteZ denoteB U ->
   forall g e, kinds_ok_top fuel opset U g -> padm A sem denoteZ denoteB g e ->
   forall o, run (tensor A) sem (o_graph g) e = Some o ->
   exists e' o', pext A denoteZ denoteB (optimize_top fuel opset U g) e e' /\ padm A sem denoteZ denoteB (optimize_top fuel opset U g) e' /\
                 run (tensor A) sem (o_graph (optimize_top fuel opset U g)) e' = Some o' /\ Forall2 teq o o'.
 Proof.
-  intros (H1 & H2 & H3 & H4 & H5 & H6 & H7 & H8 & H9 & H10 & H11 & H12 & H13 & H14 & H15 & H16 & H17 & H18 & H19 & H20) HT fuel opset U HU.
+  intros (H1 & H2 & H3 & H4 & H5 & H6 & H7 & H8 & H9 & H10 & H11 & H12 & H13 & H14 & H15 & H16 & H17 & H18 & H19 & H20) fuel opset U HU.
   eapply optimize_pipeline_sound; eassumption.
 Qed.
 
 Theorem optimize_graph_sound_function_bodies (A : Type) sem F Fcl reduce denoteZ mkZ denoteB mkB : opt_world A sem F Fcl reduce denoteZ mkZ denoteB mkB ->
-  frame_ok_T A sem denoteZ denoteB ->
   forall fuel opset U, unmodelled_ok A sem denoteZ denoteB U ->
   forall g e, kinds_ok_body fuel opset U g -> padm A sem denoteZ denoteB g e ->
   forall o, run (tensor A) sem (o_graph g) e = Some o ->
   exists e' o', pext A denoteZ denoteB (optimize_body fuel opset U g) e e' /\ padm A sem denoteZ denoteB (optimize_body fuel opset U g) e' /\
                 run (tensor A) sem (o_graph (optimize_body fuel opset U g)) e' = Some o' /\ Forall2 teq o o'.
 Proof.
-  intros (H1 & H2 & H3 & H4 & H5 & H6 & H7 & H8 & H9 & H10 & H11 & H12 & H13 & H14 & H15 & H16 & H17 & H18 & H19 & H20) HT fuel opset U HU.
+  intros (H1 & H2 & H3 & H4 & H5 & H6 & H7 & H8 & H9 & H10 & H11 & H12 & H13 & H14 & H15 & H16 & H17 & H18 & H19 & H20) fuel opset U HU.
   eapply optimize_pipeline_sound_function_bodies; eassumption.
 Qed.
 
